@@ -668,7 +668,7 @@ def oracle_c09(case, impl, oracle):
     return True
 
 
-RULE = ("seeded requests from an independent Python builder against seeded catalogs (0-4 nested entries over {., a., b.a., c.b.a., "
+RULE = ("[+ streams: TSIG(+OPT) requests whose response ends within 13 octets of the size limit; record owners with pointers / reserved label types; QNAMEs with a reserved-type length octet followed by that many octets; siblings whose label content imitates a label boundary; single-entry catalogs also served through SingleZoneCatalog] seeded requests from an independent Python builder against seeded catalogs (0-4 nested entries over {., a., b.a., c.b.a., "
         "example., sub.example., Example.} in classes IN/CH/7, Loaded/NotYetLoaded/FailedToLoad, with interleaved Catalog::remove "
         "operations on parents/children/absent names) and TSIG key sets; header flags incl. "
         "all opcodes and QR; 0/1/2 questions (QNAMEs around the zone names with case variants, occasionally a bare pointer); "
